@@ -94,6 +94,16 @@ void ScriptArrayHolder::Archive(Archiver& arc)
 {
     arc.ArchiveUInt32(refCount);
     arrayValue.Archive(arc);
+
+    if (arc.Loading())
+    {
+        // a key that is a listener is a pointer the archiver resolves when it is closed: until then it hashes
+        // as null, so the entries are filed again, under their final hash, once every pointer is in place
+        arc.AfterLoad([](void* holder) {
+            ScriptArrayHolder* const self = static_cast<ScriptArrayHolder*>(holder);
+            self->arrayValue.resize(self->arrayValue.allocated());
+        }, this);
+    }
 }
 
 void ScriptArrayHolder::Archive(Archiver& arc, ScriptArrayHolder*& arrayHolder)
